@@ -254,16 +254,19 @@ def c15_2(ctx: Ctx) -> RuleResult:
     res.add(f, f.node, "observers and parent are never both called, and neither is called twice", not both and not again,
             "" if not (both or again) else "an event can be delivered twice (observers and parent, or repeatedly)", construct="emit_event: at most one of observers/parent")
     # (d) which one: observers iff there is no parent
+    from ..util import bool_nnf, path_condition
+
     for call, want_none, what in ((oc, True, "observers"), (pc, False, "parent")):
-        cur, child, pol = parent(call), call, None
-        while cur is not None and cur is not f.node:
-            if isinstance(cur, ast.If):
-                t = cur.test
-                if isinstance(t, ast.Compare) and len(t.ops) == 1 and isinstance(t.ops[0], (ast.Is, ast.IsNot)) and "_parent" in ast.unparse(t.left):
-                    in_body = any(child is s or child in ast.walk(s) for s in cur.body)
-                    is_none = isinstance(t.ops[0], ast.Is)
-                    pol = is_none if in_body else not is_none
-            child, cur = cur, parent(cur)
+        st_ = call
+        while parent(st_) is not None and not isinstance(st_, ast.stmt):
+            st_ = parent(st_)
+        pcond = path_condition(ctx, f, st_)
+        pol = None
+        if pcond:
+            g_ = bool_nnf(("bool", "and", tuple(c_ if p else ("unary", "not", c_) for c_, p in pcond)))
+            for it in (g_[1] if g_[0] == "and" else [g_]):
+                if it[0] == "lit" and it[1][0] == "cmp" and it[1][1] == "is" and it[1][3] == ("const", None) and it[1][2][0] == "attr" and "parent" in it[1][2][2]:
+                    pol = it[2]
         ok = pol is not None and pol == want_none
         res.add(f, call, f"the {what} are called iff the plan has {'no ' if want_none else 'a '}parent", ok,
                 "" if ok else f"the {what} call is not controlled by the parent test with the right polarity", construct=f"emit_event: {what} polarity")
